@@ -3,11 +3,21 @@ package verifharness
 
 import "testing"
 
-func FuzzC07(f *testing.F)  { fuzzProp(f, "C07", genC07, checkC07) }
-func FuzzC11(f *testing.F)  { fuzzProp(f, "C11", genC11, checkC11) }
-func FuzzC14(f *testing.F)  { fuzzProp(f, "C14", genC14, checkC14) }
-func FuzzC14R(f *testing.F) { fuzzProp(f, "C14R", genC14Rule, checkC14Rule) }
-func FuzzC15(f *testing.F)  { fuzzProp(f, "C15", genC15, checkC15) }
-func FuzzC16(f *testing.F)  { fuzzProp(f, "C16", genC16, checkC16) }
-func FuzzC10(f *testing.F)  { fuzzProp(f, "C10", genC10, checkC10) }
-func FuzzC03(f *testing.F)  { fuzzProp(f, "C03", genC03, checkC03) }
+// warmUp performs the expensive one-time initialisation (scraping the vocabulary, compiling the bundled CRS to
+// collect its patterns) before the fuzzing engine starts timing single inputs: a worker that spends its first
+// input in there is killed as "hung" on a busy machine, which ends the whole campaign without any finding.
+func warmUp() {
+	loadVocab()
+	c07Setup()
+	c12Setup()
+	_ = loadCRSPatterns()
+}
+
+func FuzzC07(f *testing.F)  { warmUp(); fuzzProp(f, "C07", genC07, checkC07) }
+func FuzzC11(f *testing.F)  { warmUp(); fuzzProp(f, "C11", genC11, checkC11) }
+func FuzzC14(f *testing.F)  { warmUp(); fuzzProp(f, "C14", genC14, checkC14) }
+func FuzzC14R(f *testing.F) { warmUp(); fuzzProp(f, "C14R", genC14Rule, checkC14Rule) }
+func FuzzC15(f *testing.F)  { warmUp(); fuzzProp(f, "C15", genC15, checkC15) }
+func FuzzC16(f *testing.F)  { warmUp(); fuzzProp(f, "C16", genC16, checkC16) }
+func FuzzC10(f *testing.F)  { warmUp(); fuzzProp(f, "C10", genC10, checkC10) }
+func FuzzC03(f *testing.F)  { warmUp(); fuzzProp(f, "C03", genC03, checkC03) }
